@@ -453,7 +453,11 @@ def main():
         elif mode == "access":
             results.append(in_cold_child(lambda: run_access(j["calls"], j["order"])))
         elif mode == "lines":
-            results.append(in_cold_child(lambda: run_lines(j["calls"], j["turns"])))
+            def warm_then_lines(j=j):
+                for c in j.get("warm", []):        # an earlier history of the process, before the threads start
+                    probe.run(c)
+                return run_lines(j["calls"], j["turns"])
+            results.append(in_cold_child(warm_then_lines))
         elif mode == "count":
             results.append({"count": count_lines(j["calls"])})
         elif mode == "census":
